@@ -10,6 +10,11 @@
  * WHAT 3: structure, IMPL A: a short final block is zero-padded
  *         (ghash(y,h,d,LEN) == ghash(y,h,d||0..0,16*ceil)), and
  *         ghash(y,h,d,32) == ghash(y,h,d,16); ghash(y,h,d+16,16).
+ * WHAT 4: IMPL A == bitwise GF(2^128) reference when one operand is a unit
+ *         vector and the other arbitrary: for every bit position i in
+ *         I_LO..I_HI, (y ^ data) = e_i with every h, and h = e_i with every
+ *         y ^ data.  (GHASH is bilinear over GF(2); the general symbolic x
+ *         symbolic product does not finish on any back end.)
  */
 #include "common.h"
 #include "inner.h"
@@ -51,20 +56,23 @@ int main(void)
 
 /* SP 800-38D 6.3, algorithm 1: Z = X . Y in GF(2^128), blocks as 16 bytes,
    bit 0 = most significant bit of byte 0 */
+static uint64_t ld64be(const unsigned char *p) { uint64_t v = 0; for (int i = 0; i < 8; i++) v = v << 8 | p[i]; return v; }
+static void st64be(unsigned char *p, uint64_t v) { for (int i = 7; i >= 0; i--) { p[i] = (unsigned char)v; v >>= 8; } }
+
 static void
 ref_gmul(unsigned char *x, const unsigned char *y)
 {
-	unsigned char z[16], v[16];
-	for (int i = 0; i < 16; i++) { z[i] = 0; v[i] = y[i]; }
+	/* block = (hi, lo) with bit 0 of the standard = bit 63 of hi */
+	uint64_t xh = ld64be(x), xl = ld64be(x + 8), vh = ld64be(y), vl = ld64be(y + 8), zh = 0, zl = 0;
 	for (int i = 0; i < 128; i++) {
-		if ((x[i >> 3] >> (7 - (i & 7))) & 1)
-			for (int j = 0; j < 16; j++) z[j] ^= v[j];
-		unsigned lsb = v[15] & 1;
-		for (int j = 15; j > 0; j--) v[j] = (unsigned char)((v[j] >> 1) | (v[j - 1] << 7));
-		v[0] >>= 1;
-		if (lsb) v[0] ^= 0xE1;
+		uint64_t xi = i < 64 ? (xh >> (63 - i)) & 1 : (xl >> (127 - i)) & 1;
+		if (xi) { zh ^= vh; zl ^= vl; }
+		uint64_t lsb = vl & 1;
+		vl = (vl >> 1) | (vh << 63);
+		vh >>= 1;
+		if (lsb) vh ^= (uint64_t)0xE1 << 56;	/* R = 11100001 || 0^120 */
 	}
-	for (int i = 0; i < 16; i++) x[i] = z[i];
+	st64be(x, zh); st64be(x + 8, zl);
 }
 
 static void
@@ -95,7 +103,31 @@ run(int impl, void *y, const void *h, const void *data, size_t len)
 	}
 }
 
-#if WHAT == 2
+#if WHAT == 4
+#define IMPL_B 0
+int main(void)
+{
+	unsigned char v[16], zero[16];
+	ND_BYTES(v, 16);
+	for (int i = 0; i < 16; i++) zero[i] = 0;
+	for (int i = I_LO; i <= I_HI; i++) {
+		unsigned char e[16], y1[16], y2[16];
+		for (int j = 0; j < 16; j++) e[j] = 0;
+		e[i >> 3] = (unsigned char)(0x80 >> (i & 7));
+		for (int j = 0; j < 16; j++) y1[j] = y2[j] = 0;
+		run(IMPL_A, y1, v, e, 16);
+		run(0, y2, v, e, 16);
+		for (int j = 0; j < 16; j++) CHECK(y1[j] == y2[j], "GHASH(e_i, h) == reference for every h");
+		for (int j = 0; j < 16; j++) y1[j] = y2[j] = 0;
+		run(IMPL_A, y1, e, v, 16);
+		run(0, y2, e, v, 16);
+		for (int j = 0; j < 16; j++) CHECK(y1[j] == y2[j], "GHASH(x, e_i) == reference for every x");
+	}
+	(void)zero;
+	WITNESS_POINT("unit vectors compared");
+	return 0;
+}
+#elif WHAT == 2
 int main(void)
 {
 	unsigned char y1[16], y2[16], h[16], d[16];
